@@ -276,6 +276,16 @@ def r2_sqlite(ctx: Context) -> None:
     for fn, gg, what in ((save, g, "save"), (load, CFG(load.node, exc_edges=True), "load")):
         openers = [c for c in calls_in(fn.node) if (dotted(c.func) or "") == "sqlite3.connect" or any(
             isinstance(t, FuncInfo) and t.module is fn.module and any((dotted(x.func) or "") == "sqlite3.connect" for x in calls_in(t.node)) for t in prog.resolve_call(fn, c))]
+        # `with contextlib.closing(<open>) as connection:` closes on every exit by construction
+        managed = []
+        for w in [x for x in ast.walk(fn.node) if isinstance(x, ast.With)]:
+            for it in w.items:
+                ce = it.context_expr
+                if isinstance(ce, ast.Call) and (dotted(ce.func) or "").split(".")[-1] == "closing" and ce.args and any(ce.args[0] is o or any(y is o for y in ast.walk(ce.args[0])) for o in openers):
+                    managed.extend(o for o in openers if ce.args[0] is o or any(y is o for y in ast.walk(ce.args[0])))
+        if openers and len(managed) == len(openers):
+            ctx.ok("R2.close", f"sqlite3.{what}:close-on-every-exit", f"the connection of {what} is managed by contextlib.closing")
+            continue
         cn = {x for c in openers for x in node_for(gg, c)}
         cls_nodes = {x for c in calls_in(fn.node) if isinstance(c.func, ast.Attribute) and c.func.attr == "close" for x in node_for(gg, c)}
         bad = None
